@@ -41,6 +41,7 @@ impl Property for C19 {
             real: None,
             note: String::new(),
             decoy_in_cwd: false,
+            echo_mode: false,
         };
         for i in 0..rng.small(0, 2) {
             sc.cmd.push(format!("i{i}"));
